@@ -359,17 +359,18 @@ def t4_filter_tables(prog):
     for imp in prog.facts['impls']:
         if not imp['trait'] or imp['trait']['path'] not in FILTER_TRAITS:
             continue
-        fs = [f for f in prog.impl_methods(imp) if f.name == 'filter']
-        if not fs:
+        f = prog.impl_method_or_default(imp, 'filter')
+        if f is None:
             continue
-        f = fs[0]
         ta = trait_args(imp)
         F = ta[0]
         idx = ta[1] if len(ta) > 1 else None
         fk = filter_kind(F)
         which = 'registry' if imp['trait']['path'].startswith('registry') else 'views'
         key = 'filter[%s; %s; idx=%s; self=%s]' % (which, ty_str(F), ty_str(idx), ty_str(imp['self']))
-        E = pathsem.analyse(prog, f)
+        # a cell may delegate to a sibling cell of the same table that the compiler resolves (`&C` to `Has<C>`):
+        # such calls are followed; calls on a generic tail stay atoms
+        E = pathsem.analyse(prog, f, inline=lambda c, f=f: c.name == 'filter' and c.impl is not None and c.impl.get('trait') and c.impl['trait']['path'] in FILTER_TRAITS and c.dp != f.dp)
         rets = [p for p in E.paths if p.ended == 'return']
         if E.truncated or not rets or fk is None:
             r.viol('T4', key + '/not-extractable', f.loc(), 'cannot tabulate this filter cell')
